@@ -46,7 +46,7 @@ manifest = {
     "setup_cmd": "cd /verif/engine && GOFLAGS=-mod=mod GOPROXY=off go build -o /verif/bin/gocv .",
     "hooks": {
         "guard": "verif",
-        "enable": "go build -tags verif ./...  (comment-only contract files zz_verif_contracts*.go; gocv loads /repo with -tags=verif)",
+        "enable": "go build -tags verif ./...  (add-only files zz_verif_*.go: comment-only contract files, lemma functions and model entry points that exist only under the tag; gocv loads /repo with -tags=verif)",
         "baseline_off_cmd": "cd /repo && GOFLAGS=-mod=mod GOPROXY=off go test -vet=off -count=1 -timeout 25m ./...",
         "source_commits": hook_commits(),
         "add_only": True,
